@@ -7,6 +7,7 @@ from scen import C, e, n, op, scn, src, sub
 
 PID = "C05"
 CONC_MODULE = "C05c"
+EXTRA_ORACLES = ["c13"]     # "unsubscribe again or after a terminal has no effect" - also not on the OTHER subscribers of a shared connection
 ORACLE = "c05"
 RULE = ("pipelines of depth 0-3 over cold sources (the subscriber unsubscribes itself from inside its i-th callback, every i) and over "
         "hot subjects of the four kinds (driver unsubscribes at every position of the emit script: before the first item, between any "
@@ -91,6 +92,12 @@ def generate(rng, tier, focus):
             cases.append((scn(handles=1, script_=acts), {"k": "manual-unsub"}))
         i = rng.randrange(0, 3)
         cases.append((scn(handles=1, script_=[sub(0, p, (i, ["unsub-self"]))] + pushes + tail), {"k": "manual-self-unsub"}))
+    # stale / repeated unsubscription on a shared connection (ref_count, replay): it must not disturb the other subscribers
+    import C13
+    for kind in ["refcount", "replay"]:
+        for acts in C13.enum_histories(kind, 5, rng, 0.5 if thorough else 0.2):
+            if sum(1 for a in acts if a[0] == "unsub") >= 1 and any(a[0] == "emit" and a[2][0] in ("c", "e") for a in acts):
+                cases.append((scn(subjects=[["subject"]], conns=[[kind, ["hot", 0]]], handles=3, script_=acts), {"k": "conn-stale-unsub"}))
     return cases
 
 
